@@ -518,6 +518,30 @@ def shrink(rec, mask, budget=40):
     return best
 
 
+def isolate(rec, inputs, mask):
+    """A verdict can depend on EARLIER calls in the same harness process (thread-local / static state in the code
+    under test, e.g. a scratch buffer with a wrapping epoch).  If the failing line does not fail when evaluated
+    alone, return the shortest tried window of the input stream that ends in it and reproduces the verdict
+    ([] if none of the windows does); None if the line fails on its own."""
+    variant = rec.get("variant", "plain")
+    try:
+        alone = evaluate([rec["input"]], mask, variant)
+        if alone and alone[-1]["status"] == rec["status"]:
+            return None
+        idxs = [i for i, l in enumerate(inputs) if l == rec["input"]]
+        for idx in idxs[:3]:
+            for w in (300, 3_000, 30_000, len(inputs)):
+                window = inputs[max(0, idx + 1 - w): idx + 1]
+                rs = evaluate(window, mask, variant)
+                if rs and rs[-1]["status"] == rec["status"]:
+                    return window
+                if w >= idx + 1:
+                    break
+    except Exception:
+        pass
+    return []
+
+
 # ----------------------------------------------------------------------------- main flow
 def write_replay(pid, n, payload):
     d = os.path.join(ROOT, "replays-alt" if ALT_REPO else "replays")
@@ -566,6 +590,8 @@ def main():
                 print(e)
                 sys.exit(2)
         rs = evaluate(lines, payload.get("mask"), rv)
+        if payload.get("history_dependent") and payload.get("inputs"):
+            rs = rs[-1:]  # the earlier lines of the window only set the state up
         bad = [r for r in rs if r["status"] != "OK"]
         for r in rs:
             print(f"{r['status']} {r['detail']}\n   {r['case']}")
@@ -652,10 +678,19 @@ def main():
         notes.append(f"{len(badlines)} BADLINE verdicts (protocol error), first: {r['case'][:200]}")
 
     if propfails:
-        r = shrink(propfails[0], propfails[0].get("mask"))
-        path = write_replay(pid, 1, {"property": pid, "kind": "propfail", "input": r["input"], "case": r["case"],
-                                     "verdict": r["status"] + " " + r["detail"], "mask": propfails[0].get("mask"), "variant": propfails[0].get("variant", "plain"),
-                                     "unshrunk_input": propfails[0]["input"], "count": len(propfails)})
+        hist = isolate(propfails[0], inputs, propfails[0].get("mask"))
+        r = propfails[0] if hist else shrink(propfails[0], propfails[0].get("mask"))
+        payload = {"property": pid, "kind": "propfail", "input": r["input"], "case": r["case"],
+                   "verdict": r["status"] + " " + r["detail"], "mask": propfails[0].get("mask"), "variant": propfails[0].get("variant", "plain"),
+                   "unshrunk_input": propfails[0]["input"], "count": len(propfails)}
+        if hist is not None:
+            payload["history_dependent"] = ("the failing line does not fail when evaluated alone: its verdict depends on the earlier calls in the "
+                                            "same process" + ("; `inputs` is a window of the input stream ending in it that reproduces the verdict "
+                                                              "(replay evaluates the whole window in one process)" if hist else
+                                                              "; no tried window of the stream reproduced it — re-run the check with the same --seed and --tier"))
+            if hist:
+                payload["inputs"] = hist
+        path = write_replay(pid, 1, payload)
         violations.append((path, ""))
     elif mismatches or proof_failures:
         # search for a failing input at thorough size with the oracle only
